@@ -20,6 +20,7 @@ type Eval struct {
 	VM           *VM
 	ModulesCache []Object
 	moduleStore  moduleStore
+	started      bool
 }
 
 // NewEval returns new Eval object.
@@ -58,7 +59,14 @@ func (r *Eval) Run(ctx context.Context, script []byte) (Object, *Bytecode, error
 		return nil, nil, err
 	}
 
-	bytecode.Main.NumParams = bytecode.Main.NumLocals
+	if r.started || bytecode.Main.NumParams > bytecode.Main.NumLocals {
+		// Locals hold the variables of the previous scripts, parameters
+		// included and the variadic one already packed. (Names left behind by
+		// an earlier script that failed to compile can make the parameter
+		// count exceed the number of variables.)
+		bytecode.Main.NumParams = bytecode.Main.NumLocals
+		bytecode.Main.Variadic = false
+	}
 	r.Opts.Constants = bytecode.Constants
 	r.fixOpPop(bytecode)
 	r.VM.SetBytecode(bytecode)
@@ -72,6 +80,7 @@ func (r *Eval) Run(ctx context.Context, script []byte) (Object, *Bytecode, error
 	r.ModulesCache = r.VM.modulesCache
 	if ran {
 		// otherwise the stack still is what Clear left behind
+		r.started = true
 		r.Locals = r.VM.GetLocals(r.Locals)
 	}
 	r.VM.Clear()
